@@ -5,6 +5,7 @@ import (
 	"encoding/hex"
 	"fmt"
 	"strconv"
+	"strings"
 	"time"
 
 	sdk "github.com/cosmos/cosmos-sdk/types"
@@ -83,8 +84,10 @@ func (c10Sys) Digest(s *c10State) [32]byte { return s.w.Digest(s.ctx, []byte(fmt
 const c10LongTo = " \tinit1qqqqqqqqqqqqqqqqqqqqqqqqqqqqqqqqqqqqqqqqqqqqqqqqqqqqqqqqqqqqqqqqqqqqqqqqqqqqqq/with spaces and ünïcode \n\t"
 
 // two legal long denoms (an ibc-style hash path) that agree in their first 80 characters
-const c10LongDenomA = "ibc/27394FB092D2ECCD56123C74F36E4C1F926001CEADA9CA97EA622B25F41E5EB2/wrapped-usdc"
-const c10LongDenomB = "ibc/27394FB092D2ECCD56123C74F36E4C1F926001CEADA9CA97EA622B25F41E5EB2/wrapped-usdt"
+// (and, being of the maximal legal length of 128, in their first 127)
+var c10LongDenomA = c10LongDenomPrefix + "c"
+var c10LongDenomB = c10LongDenomPrefix + "t"
+var c10LongDenomPrefix = ("ibc/27394FB092D2ECCD56123C74F36E4C1F926001CEADA9CA97EA622B25F41E5EB2/" + strings.Repeat("transfer/channel-141/wrapped-usd/", 3))[:127]
 
 func (c10Sys) Letters(s *c10State) []engine.Letter {
 	var ls []engine.Letter
@@ -304,7 +307,7 @@ func init() {
 				return res
 			}
 			res.Absorb("c10", rep)
-			res.Coverage["alphabet"] = "CreateBridge (ids 2,3 created mid-history); Deposit(b∈{1,2,3}, denom∈{uxx,uyy}, amt∈{0,1}; on bridge 1 also two 82-character denoms that share their first 80 characters; (to,data)∈{(short,∅),(long non-ASCII,bytes)}, sender∈{funded, unfunded}); plain bank transfers to the escrow address of bridge 1 (a denom not deposited yet) and of bridge 2 (before and after its creation)"
+			res.Coverage["alphabet"] = "CreateBridge (ids 2,3 created mid-history); Deposit(b∈{1,2,3}, denom∈{uxx,uyy}, amt∈{0,1}; on bridge 1 also two 128-character denoms (the maximal legal length) that share their first 127 characters; (to,data)∈{(short,∅),(long non-ASCII,bytes)}, sender∈{funded, unfunded}); plain bank transfers to the escrow address of bridge 1 (a denom not deposited yet) and of bridge 2 (before and after its creation)"
 			res.Coverage["oracle"] = "accepted ⇒ bridge exists, response sequence = per-bridge model counter, exactly one initiate_token_deposit event whose 8 attributes equal the request, sender/escrow balances moved by the amount, pair = independent L2-denom derivation and never changes; NextL1Sequence / TokenPairs (whole and paged) / TokenPairByL1Denom / TokenPairByL2Denom queries = model in every state; a created bridge has nothing pre-recorded; rejected ⇒ digest unchanged"
 			res.Assumptions = []string{"3 bridge ids, 2 denoms, amounts 0 and 1"}
 			for _, k := range []string{"Deposit/accepted", "Deposit/rejected", "CreateBridge/accepted"} {
